@@ -38,8 +38,15 @@ def main():
         finally:
             slots.put(i)
         return p, res
+    summary = {}
     with ThreadPoolExecutor(max_workers=jobs) as pool:
         for p, res in pool.map(one, patches):
+            key = os.path.basename(os.path.dirname(p)) if "/benign/" in p else p
+            if "_error" in res or "_skipped" in res:
+                summary[key] = {"verdict": "error"}
+            else:
+                summary[key] = {"verdict": "silent" if all(v[0] == 0 for v in res.values()) else "fires",
+                                "fires": {k: [f[:300] for f in v[1][:4]] for k, v in res.items() if v[0] != 0}}
             if "_error" in res or "_skipped" in res:
                 print("%s: ERROR %s" % (p, (res.get("_error") or res.get("_skipped"))[-300:]))
                 continue
@@ -50,5 +57,15 @@ def main():
                     print("      %s %s" % (k, f[:400]))
 
 
+    return summary
+
+
 if __name__ == "__main__":
-    main()
+    sm = main()
+    if any("/benign/" in a for a in sys.argv[1:]):
+        path = os.path.join(VERIF, "benign", "RESULTS.json")
+        old = {}
+        if os.path.exists(path):
+            old = json.load(open(path))
+        old.update(sm)
+        json.dump(old, open(path, "w"), indent=1, sort_keys=True)
